@@ -69,7 +69,7 @@ Definition step_ok_ers (sn : ers_snapshot) (obs : ers_obs) : bool :=
 Definition write_matches (w : eds_write) (o : obs_write) : bool :=
   match w, o with
   | WDefault e, OUpdate e' => strategy_eqb (e_strategy e) (e_strategy e') && Bool.eqb (e_tmpl_name_set e) (e_tmpl_name_set e') &&
-                              N.eqb (e_tmpl_hash e) (e_tmpl_hash e') && annots_eqb (e_annots e) (e_annots e')
+                              (N.eqb (e_tmpl_hash e) no_name || N.eqb (e_tmpl_hash e) (e_tmpl_hash e')) && annots_eqb (e_annots e) (e_annots e')
   | WCreateRs r, OCreateRs r' => new_rs_eqb r r'
   | WDeleteRs n, ODeleteRs n' => N.eqb n n'
   | WStatus st, OStatus st' => eds_status_eqb st st'
